@@ -45,6 +45,11 @@ def fields_along(m, inst, path):
     return out
 
 
+def norm_msg(msg):
+    """exception text without generated module names / prefixes that differ between reruns"""
+    return re.sub(r"gm_\d+_\d+(_v)?", "gm", msg)[:80]
+
+
 def variants(case):
     """config deltas used to attribute a failure to a narrow cause"""
     v = {}
@@ -68,7 +73,7 @@ def classify(m, inst, case, res, vres):
     that first difference (vres: variant name -> None if the variant passes, else its first
     difference / exception)."""
     path = res.get("diff") or ""
-    here = path or ("exc:" + res.get("exc", "") + ":" + res.get("msg", "")[:80])
+    here = path or ("exc:" + res.get("exc", "") + ":" + norm_msg(res.get("msg", "")))
 
     def explains(v):
         return v in vres and vres[v] != here
@@ -109,7 +114,7 @@ def run(ck: Check):
     n_models = ck.n(60, 1500)
     jobs, metas = [], []
     for k in range(n_models):
-        slices = r.choice([("F1",), ("F1",), ("F1", "F2"), ("F1", "F2", "F3")])
+        slices = r.choice([("F1",), ("F1",), ("F1", "F2"), ("F1", "F2", "F3"), ("F1", "F4"), ("F1", "F2", "F3", "F4")])
         m = G.gen_model(r, slices=slices)
         name = f"gm_{ck.seed}_{k}"
         insts = [G.gen_instance(r, m, m["root"]) for _ in range(4)]
@@ -117,7 +122,7 @@ def run(ck: Check):
         for i in range(len(insts)):
             for _ in range(3):
                 cases.append({"i": i, "op": "roundtrip", "writer": r.choice(["native", "lxml"]), "handler": r.choice(["native", "lxml"]),
-                              "config": r.choice(CONFIGS), "ns_map": r.choice(NS_MAPS)})
+                              "config": r.choice(CONFIGS), "ns_map": r.choice(NS_MAPS), "strict": r.random() < 0.6})
         jobs.append({"src": G.render_source(m), "name": name, "root": m["root"], "instances": insts, "cases": cases})
         metas.append(m)
     out = []
@@ -149,7 +154,7 @@ def run(ck: Check):
     for i in range(0, len(rjobs), B):
         rout += run_impl("impl_binding.py", rjobs[i:i + B], timeout=1200)
     for (ji, case, res), names, ro in zip(failing, rmap, rout):
-        vres = {nm: (None if r.get("equal") else (r.get("diff") or ("exc:" + r.get("exc", "") + ":" + r.get("msg", "")[:80])))
+        vres = {nm: (None if r.get("equal") else (r.get("diff") or ("exc:" + r.get("exc", "") + ":" + norm_msg(r.get("msg", "")))))
                 for nm, r in zip(names, ro.get("results", []))}
         cls = classify(metas[ji], jobs[ji]["instances"][case["i"]], case, res, vres)
         stats[cls] = stats.get(cls, 0) + 1
